@@ -28,7 +28,18 @@ CONVERTERS = [
     # well-known vocabulary namespaces registered under other spellings of their usual prefixes
     [mrec("OWL", "http://www.w3.org/2002/07/owl#", ["Owl"]), mrec("RDFS", "http://www.w3.org/2000/01/rdf-schema#"), mrec("xsd2", "http://www.w3.org/2001/XMLSchema#"),
      mrec("x", "http://x/", [], ["http://x2/"])],
+    # served from a subclass using the documented standardize_identifier hook (index in HOOKED): expand_all(compress(u)) applies it
+    [mrec("hk", "http://hk/", ["HK"], ["http://hk2/", "http://hk/sub_"]), mrec("z", "http://z/")],
 ]
+HOOKED = {7}
+
+
+def model_for(ci):
+    if ci in HOOKED:
+        from ..impl import ident_hook
+
+        return Model(CONVERTERS[ci], ":", hook=ident_hook)
+    return Model(CONVERTERS[ci], ":")
 OWL_SAMEAS = "http://www.w3.org/2002/07/owl#sameAs"
 OTHER_PRED = "http://www.w3.org/2000/01/rdf-schema#seeAlso"
 INVALID = set('<>" {}|\\^`')
@@ -38,6 +49,8 @@ def uris_for(model):
     out = []
     for u in sorted(model.all_uri_prefixes()):
         out += [u + "1", u, u + "x/y", u[:-1], u + "a%3Ab", u + "%20z%25"]   # the last two: percent-encoded octets stay as they are
+        if model.hook is not None:
+            out += [u + "X1", u + "bad", u + "y", u + "XX2", u + "X", u + "b:1"]    # identifiers the hook rewrites or rejects
     # tails by which one registered URI prefix extends another, transplanted behind every URI prefix (a rendering of such a
     # URI under a sibling prefix then falls under the longer, foreign prefix)
     ups = sorted(model.all_uri_prefixes())
@@ -91,6 +104,11 @@ def expected(model, u, pred):
         return set()
     r, up = hit
     ident = u[len(up):]
+    if model.hook is not None:      # the oracle spelled out: expand_all(compress(u))
+        both = model.expand_all(model.compress(u))
+        if both is None:
+            return set()
+        return {x for x in [both[0]] + list(both[1]) if not (set(x) & INVALID)}
     return {x + ident for x in r.uri_prefixes if not (set(x + ident) & INVALID)}
 
 
@@ -102,7 +120,12 @@ def service(ci):
         from curies.mapping_service import MappingServiceGraph, MappingServiceSPARQLProcessor, get_fastapi_mapping_app, get_flask_mapping_app
         from starlette.testclient import TestClient
 
-        conv = Converter([to_record(r) for r in CONVERTERS[ci]])
+        if ci in HOOKED:
+            from ..impl import HookedConverter
+
+            conv = HookedConverter([to_record(r) for r in CONVERTERS[ci]])
+        else:
+            conv = Converter([to_record(r) for r in CONVERTERS[ci]])
         graph = MappingServiceGraph(converter=conv)
         proc = MappingServiceSPARQLProcessor(graph=graph)
         flask_client = get_flask_mapping_app(conv).test_client()
@@ -157,7 +180,7 @@ TRANSPORTS = ["graph", "graph-prepared", "flask-get", "flask-post", "flask-post-
 
 def check_query(ci, u, direction, placement, pred, model=None, ctx=None):
     fails = []
-    model = model or Model(CONVERTERS[ci], ":")
+    model = model or model_for(ci)
     free = "o" if direction == "s" else "s"
     want = expected(model, u, pred)
     q = sparql(u, direction, placement, pred)
@@ -479,7 +502,7 @@ def check_query_kwargs(ci, ctx=None):
 
     fails = []
     conv, graph, proc, _, _ = service(ci)
-    model = Model(CONVERTERS[ci], ":")
+    model = model_for(ci)
     ups = [u for u in sorted(model.all_uri_prefixes()) if not (set(u) & INVALID)][:4]
     for bound, free in (("s", "o"), ("o", "s")):
         # (the predicate is written as an IRI: binding a second prefix to the owl namespace would, in rdflib, unbind "owl")
@@ -509,7 +532,7 @@ def units(tier, seed):
     us = [{"kind": "predicates"}]
     us += [{"kind": "kwargs", "conv": ci} for ci in range(len(CONVERTERS))]
     for ci in range(len(CONVERTERS)):
-        U = uris_for(Model(CONVERTERS[ci], ":"))
+        U = uris_for(model_for(ci))
         for ch in chunks(U, 4):
             us.append({"kind": "sparql", "conv": ci, "uris": ch})
         us.append({"kind": "mutate", "conv": ci})
